@@ -232,6 +232,7 @@ func (w *World) ToHex(o *TypedArray) Value {
 	}
 	const hx = "0123456789abcdef"
 	out := make([]byte, 0, o.Length*2)
+	w.noteFlexRead(o.Buf, o.ByteOffset, o.Length, Uint8, true)
 	for i := 0; i < o.Length; i++ {
 		c := o.Buf.Data[o.ByteOffset+i]
 		out = append(out, hx[c>>4], hx[c&15])
